@@ -230,10 +230,10 @@ func TestC12SM(t *testing.T) {
 func TestC13SM(t *testing.T) {
 	runSM(t, smSpec{
 		Name: "TestC13SM", Prop: "C13",
-		Rule: "history over template-edit words on the alphabet A,B,C (A->B->A, A->B->C, edits during a canary) with every interleaving of EDS, replica-set and PodTemplate reconciles and pod/kubelet steps that shape replica-set statuses at clean-up time; monitors rs-identity (one replica set per template, template/hash triple, pod hash = creator's) and rs-gc (never the active or matching set, only all-zero status, failed canary kept two minutes), plus PodTemplate = spec.template after each PodTemplate reconcile; non-trivial = the word revisits a letter or has >= 3 edits; distinct by action trace",
+		Rule: "history over template-edit words on the alphabet A,B,C (A->B->A, A->B->C, edits during a canary), edits of the ExtendedDaemonSet's own metadata.labels, with every interleaving of EDS, replica-set and PodTemplate reconciles and pod/kubelet steps that shape replica-set statuses at clean-up time; monitors rs-identity (one replica set per template, template/hash triple, pod hash = creator's) and rs-gc (never the active or matching set, only all-zero status, failed canary kept two minutes), plus PodTemplate = spec.template after each PodTemplate reconcile; non-trivial = the word revisits a letter or has >= 3 edits; distinct by action trace",
 		Cfg: WorldCfg{MinNodes: 1, MaxNodes: 4, Letters: "ABC", Strategy: gen.StrategyOpts{Canary: 1}, Forks: 0, Affinity: 2, PlainNodes: true, Warmup: 4, StartEdit: 1,
 			Monitors: mon.Of("rs-identity", "rs-gc", "no-panic"),
-			Weights:  weights(defaultWeights(), map[string]int{"edit-template": 8, "rec-eds": 12, "rec-pt": 5, "round": 5, "node-taint": 0, "node-relabel": 0})},
+			Weights:  weights(defaultWeights(), map[string]int{"edit-template": 8, "rec-eds": 12, "rec-pt": 5, "round": 5, "node-taint": 0, "node-relabel": 0, "eds-relabel": 3})},
 		MinSteps: 15, MaxSteps: 70,
 		After: func(w *World) {
 			for _, k := range w.EDS {
